@@ -30,6 +30,8 @@ Definition top_len (x : expr) : Z :=
   | XCollect _ xs => coll_len (coll_adds coll_zero (map eval xs))
   | XStack _ xs => stack_len (stack_add stack_zero (map eval xs))
   | XStackPush _ xs => stack_len (fold_left (fun s v => push v s) (map eval xs) stack_zero)
+  | XConsume _ cancelled adds pre items kinds =>
+      coll_len (consume (coll_adds coll_zero (map eval adds)) (map eval pre) (combine kinds (map eval items)) cancelled)
   | _ => -1
   end.
 
